@@ -26,7 +26,7 @@ from common import Ctx, Outcome
 from . import decl_lib as L
 
 DRIVERS = ["Decl"]
-TABLES = False
+TABLES = True
 LEVEL = "proof"
 RULE = ("seeded random create/extend documents over a slice of the LA metamodel (components, functions, ports, "
         "exchanges, data packages, classes, properties): 2-9 creation sites, nested or attached through "
@@ -354,6 +354,105 @@ def gen_ops_doc(rng, base: L.Base):
     return doc
 
 
+# ------------------------------------------------------------------ documents over the real metamodel
+
+
+_META = None
+
+
+def meta_rows():
+    """(class, attr) -> kind, straight from the reflective dump that also writes Capella/Gen/DeclMeta*.lean"""
+    global _META
+    if _META is None:
+        import gen_declmeta
+
+        rows, hints = gen_declmeta.collect()
+        by_cls: dict[str, list] = {}
+        for c, a, k in rows:
+            by_cls.setdefault(c, []).append((a, k))
+        _META = (by_cls, hints)
+    return _META
+
+
+def kind_tag(k):
+    if k is None:
+        return "absent"
+    if k[0] == "uncoupled":
+        return "uncoupled"
+    return "coupled:" + k[1][0] + (":nodefault" if k[1][0] == "xtype" and k[1][1] is None else "")
+
+
+def gen_meta_doc(rng, base: L.Base):
+    """creations below arbitrary objects of the model, in arbitrary attributes of their classes: coupled lists of
+    every creator kind, uncoupled lists, attributes that are not lists / do not exist; with and without `_type`
+    hints (class names, qualified and short xsi:types, unknown names), plain-string children, promise ids on
+    every object description (they carry the created class back)."""
+    by_cls, hints = meta_rows()
+    good_hints = [h for h, c in hints if c is not None]
+    objs = base.graph["objs"]
+    doc, tags = [], []
+    nid = itertools.count(10000)
+    for _ in range(rng.randint(1, 3)):
+        o = rng.choice(objs)
+        rows = by_cls.get(o["cls"], [])
+        r = rng.random()
+        pool = None
+        if r < 0.5:
+            pool = [(a, k) for a, k in rows if k[0] == "coupled" and k[1][0] == "xtype"]
+        elif r < 0.62:
+            pool = [(a, k) for a, k in rows if k[0] == "coupled" and k[1][0] == "cannot"]
+        elif r < 0.72:
+            pool = [(a, k) for a, k in rows if k[0] == "uncoupled"]
+        elif r < 0.8:
+            pool = [(a, k) for a, k in rows if k[0] == "coupled" and k[1][0] == "other"]
+        if pool:
+            attr, k = rng.choice(pool)
+        elif r < 0.9 or not rows:
+            attr, k = rng.choice(["name", "uuid", "parent", "no_such_attribute", "xtype", "description", "Functions"]), None
+            if any(a == attr for a, _ in rows):
+                k = next(kk for a, kk in rows if a == attr)
+        else:
+            attr, k = rng.choice(rows)
+        items = []
+        for _ in range(rng.randint(0, 2) if rng.random() < 0.85 else 0):
+            i = next(nid)
+            h = rng.random()
+            if h < 0.12:
+                items.append({"str": f"s{i}", "nid": i})
+                continue
+            x = {"nid": i, "pid": f"p{i}", "scal": [["name", {"s": f"n{i}"}]] if rng.random() < 0.7 else []}
+            if h < 0.45:
+                x["ty"] = rng.choice(good_hints)
+            elif h < 0.55 and k is not None and k[0] == "coupled" and k[1][0] == "xtype" and k[1][1]:
+                x["ty"] = k[1][1]
+            elif h < 0.62:
+                x["ty"] = rng.choice(["Bogus", "logicalfunction", "la:NoSuch", ""])
+            items.append(x)
+        doc.append({"parent": {"u": o["id"]}, rng.choice(["create", "ext"]): [[attr, items]]})
+        tags.append(kind_tag(k) + (":empty" if not items else ""))
+    return doc, tags
+
+
+def run_meta(ctx, out, bases, req, pending):
+    rng = ctx.rng
+    dist: dict[str, int] = {}
+    for n in range(pick(ctx, 70, 600)):
+        base = bases[rng.choice(["melody52", "melody52", "write", "empty52"])]
+        doc, tags = gen_meta_doc(rng, base)
+        for t in tags:
+            dist[t] = dist.get(t, 0) + 1
+        m = L.load_model(base.key)
+        st, res = L.apply_impl(m, copy.deepcopy(doc), base)
+        iv = ({"classes": {p: type(o).__name__ for p, o in sorted(res.items())}} if st == "ok" else res)
+        out.case((base.key, common.sha(doc), "meta"), {"model": base.key, "flavour": "meta", "doc": doc, "impl": iv}
+                 if len([x for x in out.samples if x.get("flavour") == "meta"]) < 1 else None, True)
+        out.hit("meta.impl:" + (st if st == "ok" else res["error"]))
+        out.traces_validated += 1
+        req.append({"op": "apply", "mm": "gen", "graph": base.graph, "doc": doc})
+        pending.append((base, doc, list(range(len(doc))), "meta", iv))
+    out.extra["meta_documents_by_target_kind"] = dict(sorted(dist.items()))
+
+
 # ------------------------------------------------------------------ order-free denotation (the monitor's oracle)
 
 
@@ -662,6 +761,37 @@ def run_doc(ctx, out, base: L.Base, doc, flavour, perms, req, pending):
     return results
 
 
+def judge_meta(out, base, doc, iv, a, objlayer):
+    """documents over the real metamodel: the error kind where the model predicts one (target checks of
+    `_create_complex_objects`, `create` / `create_singleattr` / `_match_xtype` / `_guess_xtype`), the class of
+    every created object where both sides succeed"""
+    by_cls, _ = meta_rows()
+    cls_of = {o["id"]: o["cls"] for o in base.graph["objs"]}
+    other = any(k[0] == "coupled" and k[1][0] == "other"
+                for ins in doc for key in ("create", "ext") for attr, _ in ins.get(key, [])
+                for a2, k in by_cls.get(cls_of[ins["parent"]["u"]], []) if a2 == attr)
+    case = {"model": base.key, "doc": doc, "order": list(range(len(doc)))}
+    if "error" in a:
+        mv = L.norm_model_err(a)
+        out.hit("meta.model:" + a["error"])
+        if other:
+            out.hit("meta.not-compared:other-creator")
+            return
+        if mv != iv:
+            out.disagree("apply.meta", case, iv, mv)
+        return
+    g = {o["id"]: o["cls"] for o in a["graph"]["objs"]}
+    mv = {"classes": {p: g.get(i) for p, i in sorted(a["promises"])}}
+    out.hit("meta.model:ok")
+    if "error" in iv:
+        # the model has no object layer below `create`: constructors and `insert` may refuse what decl hands them
+        k = iv["error"]
+        objlayer[k] = objlayer.get(k, 0) + 1
+        return
+    if mv != iv:
+        out.disagree("apply.meta", case, iv, mv)
+
+
 WITNESS = [  # the document of Props/C12.lean `witness` (dp is substituted)
     {"parent": {"u": "dp"}, "ext": [["classes", [{"nid": 10000, "scal": [["name", {"s": "n1000"}], ["super", {"p": "K"}]]},
                                                   {"nid": 10001, "scal": [["name", {"s": "n1001"}]]}]]]},
@@ -768,6 +898,7 @@ def run(ctx: Ctx) -> Outcome:
         if len(doc) > 5 and key != "empty52":
             doc = doc[:5] if flavour == "plain" else doc
         do(base, doc, flavour)
+    run_meta(ctx, out, bases, req, pending)
 
     # ---- correspondence with the Lean machine
     if os.environ.get("VERIF_NO_MODEL") != "1":
@@ -776,11 +907,16 @@ def run(ctx: Ctx) -> Outcome:
         for i in range(0, len(req), CH):
             answers += common.model(req[i:i + CH], driver="Decl")
         steps = []
+        objlayer: dict[str, int] = {}
+        out.extra["meta_model_ok_impl_raises_below_decl"] = objlayer
         for (base, doc, perm, flavour, iv), ans in zip(pending, answers):
             if "err" in ans:
                 out.disagree("driver", {"doc": doc, "order": perm}, iv, ans)
                 continue
             a = ans["ok"]
+            if flavour == "meta":
+                judge_meta(out, base, doc, iv, a, objlayer)
+                continue
             if "error" in a:
                 mv = L.norm_model_err(a)
                 out.hit("model:" + a["error"])
